@@ -27,7 +27,10 @@ EXPLANATION = (
     "often, the rest of the term is kept, early exits as a decision table. _factor_short_intermediate on abstract terms with "
     "scripted variants (one, same objects, disjoint objects, overlapping, none, two terms): on every path every term enters "
     "the sum once, unchanged or as _build_factored_term(remainder, term.pref*factor/itmd.pref, cls, images of the default "
-    "indices) with all four read off ONE variant and off the sign-canonical split that was compared. "
+    "indices) with all four read off ONE variant and off the sign-canonical split that was compared; a variant that puts a "
+    "contracted index of the intermediate on a target index of the term is never accepted (scenarios with concrete target "
+    "indices; with symbolic targets the accepting path must carry the decision `image not in term.eri.target` for every "
+    "contracted index); the long factorisation files no such match in the pool either. "
     "_factor_long_intermediate: every match filed in the pool has prefactor term.pref*f/(n*itmd.pref), unit prefactor "
     "itmd.pref*f*n (f = variant factor * sign of the minimised tensor), remainder/indices of its own variant; the result is "
     "the two factorisation passes plus every term they did not consume, once. _factor_complete / _factor_mixed_prefactors "
@@ -476,6 +479,12 @@ SHORT_SCENARIOS = {
     "no match": ("ia", "k", True, [None]),
     "two terms": ("ia", "k", True, [[((0,), (0,), {"i": "m"}, "F0")], [((2,), (1,), {"a": "e"}, "G0")]]),
     "second term unmatched": ("ia", "k", True, [[((1,), (0,), {"i": "m"}, "F0")], None]),
+    # concrete target indices of the terms: a contracted index of the itmd that lands on one of them is not summed in the term
+    "contracted index is a target": ("ia", "k", True, [[((0,), (0,), {"i": "m", "k": "x"}, "F0"), ((1,), (0,), {"i": "n", "k": "o"}, "F1")]], "xy"),
+    "only variant sums a target": ("ia", "k", True, [[((0,), (0,), {"i": "m", "k": "x"}, "F0")]], "xy"),
+    "unsubstituted contracted index is a target": ("ia", "kc", True, [[((0,), (0,), {"i": "m", "k": "l"}, "F0"), ((1,), (1,), {"k": "l", "c": "d"}, "F1")]], "cy"),
+    "two terms, one sums a target": ("ia", "k", True, [[((0,), (0,), {"k": "y"}, "F0")], [((2,), (1,), {"a": "e", "k": "n"}, "G0")]], "xy"),
+    "targets untouched": ("ia", "k", True, [[((0,), (0,), {"i": "x", "k": "n"}, "F0")]], "xy"),
 }
 
 
@@ -547,11 +556,45 @@ def conserved(ctx, rule, fn, what, value, sources, judge, key):
     return why is None
 
 
+def sums_target(v, contracted, targets):
+    """a contracted index of the intermediate is mapped (or left) on a target index of the term by the variant"""
+    if targets is None:
+        return False
+    return any(v["sub"].get(mk_index(c), mk_index(c)) in targets for c in contracted)
+
+
+def target_decided(o, s, variants, contracted):
+    """symbolic target indices: on a path that accepts a variant the evaluation must have decided, for every contracted
+    index of the intermediate, that its image is none of the term's target indices"""
+    a = args_of(s)
+    g = [c for c in subterms(a.get("remainder")) if c.op == "call" and c.args[0] == "_get_remainder"]
+    if not g:
+        return None
+    g = args_of(g[0])
+    term = g.get("term")
+    v = [v for v in variants or () if tuple(g.get("obj_i", ())) == tuple(v["eri_i"]) and tuple(g.get("denom_i", ())) == tuple(v["denom_i"])]
+    if not v:
+        return None
+    tgt = T("attr", T("attr", term, "eri"), "target")
+    for c in contracted:
+        img = v[0]["sub"].get(mk_index(c), mk_index(c)).term
+        atoms = [(at, pol) for at, pol in o.path if at.op == "cmp" and any(x == img for x in subterms(at)) and
+                 any(x == tgt for x in subterms(at))]
+        if not atoms:
+            return (f"the variant is accepted without checking that the contracted index {show(img)} of the intermediate is no target "
+                    "index of the term (term.eri.target): a target index is fixed, the factored term would sum over it")
+        if any(pol for at, pol in atoms if at.args[0] in ("in", "==", "is")):
+            return f"the variant is accepted although {show(atoms[0][0])} was decided to hold"
+    return None
+
+
 def r11b_short(ctx):
     rule = "R11b"
     fn = ctx.model.fn(FI + "_factor_short_intermediate")
     n_fact = n_keep = 0
-    for sname, (defaults, contracted, has_denom, per_term) in SHORT_SCENARIOS.items():
+    for sname, scen in SHORT_SCENARIOS.items():
+        defaults, contracted, has_denom, per_term = scen[:4]
+        targets = tuple(mk_index(x) for x in scen[4]) if len(scen) > 4 else None
         srcs = [sym(f"t{k}") for k in range(len(per_term))]
         variants = []
         for vs in per_term:
@@ -583,8 +626,13 @@ def r11b_short(ctx):
             cls, _ = _tensor_provider("t9")
             cls.attrs.update(default_idx=tuple(defaults))
             return dict(expr=_abstract_expr("expr", list(srcs), is_number=sym("expr.is_number")), itmd=itmd, itmd_data=itmd_data, itmd_cls=cls)
+        def target_of(sx_, obj, attr, node):
+            # <split term>.eri.target of the scenarios with concrete target indices
+            if targets is not None and attr == "target" and isinstance(obj, T) and obj.op == "attr" and obj.args[1] == "eri":
+                return targets
+            return NotImplemented
         sx = Symex(ctx.model, inline=factor_inline, hooks={"get_symbols": get_symbols_model, "_compare_terms": compare_terms},
-                   what=f"_factor_short_intermediate[{sname}]", max_paths=60000)
+                   what=f"_factor_short_intermediate[{sname}]", max_paths=60000, attr_hook=target_of)
         outs = sx.run(fn, args)
         judged = set()
         for o in outs:
@@ -603,14 +651,23 @@ def r11b_short(ctx):
                         key=f"short compared {sname}")
             state = []
 
-            def judge(k, s):
+            def judge(k, s, o=o):
                 if unwrap(s) == srcs[k]:
                     state.append("kept")
                     return None
                 for v in variants[k] or ():
                     v["_defaults"] = defaults
-                r = _factored_matches(ctx, s, srcs[k], variants[k], compared)
+                allowed = [v for v in variants[k] or () if not sums_target(v, contracted, targets)]
                 state.append("factored")
+                if targets is not None and not allowed:
+                    return (f"the term is replaced by the intermediate although in every variant a contracted index of the intermediate "
+                            f"lands on a target index of the term {[nm(x) for x in targets]}: that index is fixed, not summed, in the term")
+                r = _factored_matches(ctx, s, srcs[k], allowed, compared)
+                if r is not None and targets is not None and _factored_matches(ctx, s, srcs[k], variants[k], compared) is None:
+                    return (f"a variant is accepted in which a contracted index of the intermediate is substituted by a target index of "
+                            f"the term {[nm(x) for x in targets]}: the factored term sums an index that is fixed in the term")
+                if r is None and targets is None and contracted:
+                    r = target_decided(o, s, variants[k], contracted)
                 return r
             sig = repr(canon(o.value))
             if sig in judged:
@@ -1036,9 +1093,10 @@ def r11b_long(ctx):
     MIN = tuple(mk_index(c) for c in "klcd")
     # term -> itmd term -> variants (eri_i, denom_i, sub, factor); term 1 is no candidate at all, term 3 has no denominator
     table = {
-        0: {0: [((0,), (0,), {"i": "m", "j": "n"}, "F00a"), ((1,), (0,), {"i": "m", "j": "n"}, "F00b"), ((1,), (1,), {"i": "n", "j": "m"}, "F00c")],
+        0: {0: [((0,), (0,), {"i": "m", "j": "n", "k": "o"}, "F00a"), ((1,), (0,), {"i": "m", "j": "n"}, "F00b"),
+                ((1,), (1,), {"i": "n", "j": "m", "k": "l"}, "F00c"), ((2,), (0,), {"i": "n", "j": "o", "k": "x"}, "F00x")],
             1: [((0, 1), (1,), {"a": "e"}, "F01")]},
-        2: {0: None, 1: [((2,), (0, 0), {"b": "f"}, "F21")]},
+        2: {0: None, 1: [((2,), (0, 0), {"b": "f", "k": "y"}, "F21")]},   # itmd term 1 has no contracted index: k is irrelevant
         3: {0: [((0,), (), {}, "F30")], 1: [((0,), (), {}, "F31")]},
     }
     spread = {(0, 0): {0, 1}, (0, 1): {1}, (2, 1): {1, 0}, (3, 0): {0}, (3, 1): {1}}
@@ -1121,13 +1179,22 @@ def r11b_long(ctx):
 
         def args():
             st.update(compared=[], minimized=[], adds=[], parts=[], mapped=[], rem_compared=0)
-            itmd = [Obj(None, f"itmd{i}", expr=Obj(None, f"itmd{i}.expr", idx=D), pref=sym(f"itmd{i}.pref"), pos=i) for i in range(2)]
+            # itmd term 0 sums over k: a variant that puts k on a target index of the term (x, y) must not enter the pool
+            itmd = [Obj(None, f"itmd{i}", expr=Obj(None, f"itmd{i}.expr", idx=D + ((mk_index("k"),) if i == 0 else ())),
+                        pref=sym(f"itmd{i}.pref"), pos=i) for i in range(2)]
             data = tuple(Obj(None, f"itmd_data{i}", eri_obj_descriptions={"V": 1 + i}, denom_bracket_lengths={4: 1} if i == 0 else None, pos=i)
                          for i in range(2))
             cls = Obj(None, "itmd_cls", default_idx=tuple("ijab"), tensor=tensor)
             return dict(expr=_abstract_expr("expr", [sym(f"t{k}") for k in range(4)]), itmd=itmd, itmd_data=data, itmd_term_map=sym("TERM_MAP"),
                         itmd_cls=cls)
-        hooks = {"get_symbols": get_symbols_model, "EriOrbenergy": eri_orbenergy, "FactorizationTermData": term_data,
+        def get_remainder(sx, a, kw):
+            b = dict(zip(("term", "obj_i", "denom_i"), a))
+            b.update(kw)
+            call = T("call", "_get_remainder", (), (("term", b["term"].term), ("obj_i", tuple(b["obj_i"])), ("denom_i", tuple(b["denom_i"]))))
+            r = Obj(None, f"REM{len(st['compared'])}.{tuple(b['obj_i'])}", idx=(mk_index("z"), mk_index("y")), sympy=sym("REM.sympy"))
+            r.attrs["permute"] = lambda sx_, a_, kw_: T("mcall", call, "permute", tuple(a_), ())
+            return r
+        hooks = {"get_symbols": get_symbols_model, "EriOrbenergy": eri_orbenergy, "FactorizationTermData": term_data, "_get_remainder": get_remainder,
                  "_compare_terms": compare_terms, "minimize_tensor_indices": minimize, "_compare_remainder": compare_remainder,
                  "_map_on_other_terms": map_on_other, "LongItmdVariants": variants_cls, "_factor_complete": part("complete"),
                  "_factor_mixed_prefactors": part("mixed"),
@@ -1157,6 +1224,8 @@ def r11b_long(ctx):
         for k, i in candidates:
             seen_idx = set()
             for n_v, v in enumerate(table.get(k, {}).get(i) or ()):
+                if i == 0 and v[2].get("k", "k") in ("x", "y"):
+                    continue    # would sum a target index of the term
                 key_ = tuple(v[2].get(c, c) for c in "ijab")
                 if dup and key_ in seen_idx:
                     continue
@@ -1164,6 +1233,12 @@ def r11b_long(ctx):
                 exp.append((k, i, n_v, v))
         ok_n = len(st["adds"]) == len(exp)
         why = None if ok_n else f"{len(st['adds'])} matches enter the pool, expected {len(exp)}"
+        for a_, kw_ in st["adds"]:
+            b = dict(zip(("term_i", "itmd_indices", "remainder", "matching_itmd_terms", "prefactor", "unit_factorization_pref"), a_))
+            b.update(kw_)
+            if b.get("term_i") == 0 and any(x == sym("F00x") for x in subterms(b.get("prefactor"))):
+                why = ("a match enters the pool in which the contracted index k of the intermediate is substituted by the target index x of the "
+                       "term: x is fixed in the term, the factored intermediate would sum over it")
         for (a_, kw_), (k, i, n_v, (e_i, d_i, sub, f)) in zip(st["adds"], exp):
             if why:
                 break
